@@ -16,7 +16,7 @@ rebuild() { cd "$D"; for b in jellyfysh/scheduler/heap_scheduler/heap_build.py j
 git -C "$SRC" checkout -- . 2>/dev/null
 cd "$SRC/jellyfysh" && PYTHONPATH="$SRC" timeout 2400 /venv/bin/python ../demo$K.py >/tmp/seedconf_$ID.clean.log 2>&1; RC_CLEAN=$?
 git -C "$D" apply "$OUT/patch.diff" || { echo "patch does not apply"; exit 2; }
-TOUCHC=$(grep -c '^+++ .*\.[ch]$' "$OUT/patch.diff")
+TOUCHC=$(grep -cE '^\+\+\+ .*(\.[ch]|_build\.py)$' "$OUT/patch.diff")
 [ "$TOUCHC" != "0" ] && rebuild
 cd "$D" && TESTS=$(timeout 1500 /venv/bin/python -m pytest -q -p no:cacheprovider --timeout=900 -n 8 2>&1 | tail -1)
 git -C "$SRC" apply "$OUT/patch.diff"
